@@ -36,7 +36,7 @@ pub struct Def {
     pub is_value: bool,
 }
 
-pub const DEFS: [Def; 17] = [
+pub const DEFS: [Def; 19] = [
     Def { name: "Ty0", text: "Ty0 ::= INTEGER (0..7)", deps: &[], is_value: false },
     Def { name: "Ty1", text: "Ty1 ::= SEQUENCE { a Ty0, b BOOLEAN OPTIONAL }", deps: &[0], is_value: false },
     Def { name: "Ty2", text: "Ty2 ::= CHOICE { x Ty1, y NULL }", deps: &[1], is_value: false },
@@ -54,6 +54,9 @@ pub const DEFS: [Def; 17] = [
     Def { name: "val14", text: "val14 Ty13 ::= { f }", deps: &[13], is_value: true },
     Def { name: "Ty-15", text: "Ty-15 ::= OCTET STRING (SIZE (2))", deps: &[], is_value: false },
     Def { name: "val16", text: "val16 Ty1 ::= { a 3, b TRUE }", deps: &[1], is_value: true },
+    // a value of a built-in type whose name is one upper-case word, given as a single reference in braces
+    Def { name: "val17", text: "val17 RELATIVE-OID ::= { 3 4 }", deps: &[], is_value: true },
+    Def { name: "val18", text: "val18 RELATIVE-OID ::= { val17 }", deps: &[17], is_value: true },
 ];
 
 pub const TYPE_FAULTS: [&str; 7] = ["REAL", "Videotex", "TIME", "inverted-range", "undefined-ref", "macro", "selection-undefined"];
